@@ -394,6 +394,34 @@ def stmt_backend(name):
     return fn_backend(name)
 
 
+def helper_alphabet(f, atom):
+    """characters a text-computing crate helper can produce, when its only input is a byte string: interpreted on byte
+    strings covering every nibble value in both positions.  None when it is not such a helper / not interpretable"""
+    from ..interp import Interp, Unsupported, Diverged
+    info = atom[2] or {}
+    cal = H.callee(info.get("node") or {}) or atom[1]
+    fn = f.fns.get(cal)
+    if fn is None or fn.get("hir") is None or not cal.startswith("crate::"):
+        return None
+    ps = fn.get("params") or []
+    tys = [(f.ty(p["ty"]) or "") for p in ps]
+    if [t for t in tys if t.lstrip("&") not in ("[u8]", "alloc::vec::Vec<u8>", "Self")] or not any("u8" in t for t in tys):
+        return None
+    out = set()
+    try:
+        for bs in ([], [0x00], [0x0f, 0xf0], [0x12, 0x34, 0x56, 0x78, 0x9a, 0xbc, 0xde, 0xff], list(range(0, 256, 17)), list(range(15, 256, 16))):
+            it = Interp(f)
+            it.free_opaque = True
+            args = [list(bs) if "u8" in t else __import__("sqv.interp", fromlist=["Opaque"]).Opaque("self") for t in tys]
+            r = it.call_fn(cal, args)
+            if not isinstance(r, str):
+                return None
+            out |= set(r)
+    except (Unsupported, Diverged):
+        return None
+    return out
+
+
 def check_quoted_holes(run, f, cfg):
     """R3: dataflow over the TIR of every function with a sink: nothing unescaped between single quotes"""
     nfn = 0
@@ -458,6 +486,11 @@ def check_quoted_holes(run, f, cfg):
                     why = " - a call (%s) between quotes: its output is not known to be escaped" % a[1].rsplit("::", 1)[-1]
                     if a[0] == "callv" and a[1] in (EB + "::escape_string",):
                         ok = True
+                    elif a[0] == "callv":
+                        alpha = helper_alphabet(f, a)
+                        if alpha is not None and alpha <= set("0123456789abcdefABCDEF"):
+                            ok = True
+                            why = " (a crate helper over bytes; interpreted on byte strings covering every nibble: it writes hex digits only)"
                 elif a[0] == "buf":
                     why = " - a local buffer between quotes"
                 sp = a[3] if len(a) > 3 else None
